@@ -93,7 +93,7 @@ theorem openRound_flows (e : EP) (r : OpenReq) :
     · rename_i fid rng' fb' hd
       simp only
       split
-      · exact Or.inr ⟨fid, rfl⟩
+      · exact Or.inl rfl
       · exact Or.inr ⟨fid, by simp [EP.enqFrame]⟩
 
 /-- The `Requested` slots after a round: the old ones, and possibly one for this request. -/
